@@ -1149,13 +1149,18 @@ def run(tier):
     rep.rule("C05.guard", "get reaches the alternative only under holds_alternative<I> and otherwise throws bad_variant_access; get_if tests null and holds_alternative; "
                           "visit tests every operand for valueless; hash visits only a valued variant")
     rep.rule("C05.switch", "in every instantiated 32-way dispatch switch the case labels are B..B+31, each dispatches the alternative of its label, default continues at B+32")
-    d = cj.dump(PAT_DRIVER, "mpark::")
-    rep.cmd(d.cmd)
-    pats = Patterns(d)
-    rep.unit("template patterns of xvariant_impl.hpp: %d function definitions" % sum(len(v) for v in pats.by.values()))
-    rule_shape(rep, d, pats)
-    rule_life(rep, d, pats)
-    rule_relop(rep, d)
-    rule_guard(rep, d, pats)
+    configs = [("gnu++17", [])]
+    if tier == "thorough":
+        configs += [("gnu++14", []), ("gnu++20", []), ("gnu++17", ["-fno-exceptions"])]
+    for std, extra in configs:
+        d = cj.dump(PAT_DRIVER, "mpark::", std=std, extra=extra)
+        rep.cmd(d.cmd)
+        pats = Patterns(d)
+        rep.unit("template patterns of xvariant_impl.hpp (-std=%s %s): %d function definitions" % (std, " ".join(extra), sum(len(v) for v in pats.by.values())))
+        rule_shape(rep, d, pats)
+        rule_life(rep, d, pats)
+        rule_relop(rep, d)
+        if not extra:
+            rule_guard(rep, d, pats)      # without exceptions throw_bad_variant_access terminates: C19 pairs that configuration
     rule_switch(rep, tier)
     return rep
